@@ -51,7 +51,9 @@ func genSigFunctions(r *rand.Rand) map[string]schema.FunctionSignature {
 
 func genCallExpr(r *rand.Rand, d int) string {
 	if d <= 0 || r.Intn(4) == 0 {
-		return pick(r, []string{"1", `"s"`, "var.a", "true", "[1, 2]", `{ k = "v" }`, `"é"`, "local.x[0]"})
+		return pick(r, []string{"1", `"s"`, "var.a", "true", "[1, 2]", `{ k = "v" }`, `"é"`, "local.x[0]",
+			// arguments whose start is not where their first token of interest stands (index with a computed key, splat, operators)
+			"var.keys[count.index]", "res.web[*].id", "var.m[var.k].x", "var.c ? var.a : var.b", "var.l[var.i] + 1", "!var.flags[var.i]"})
 	}
 	name := pick(r, []string{"f0", "f1", "f2", "f3", "f4", "f5", "noargs", "unknown", "ns::fn::x", "g1", "g2", "g3", "g4", "g5"})
 	n := r.Intn(5)
